@@ -578,4 +578,66 @@ theorem DecodeInt32_refines (fuel : Nat) (hf : 11 ≤ fuel) (p : Bytes) (off mod
         | err => simp [elInt32, elVarint, nz, hmm]; exact ⟨_, _, _, ⟨⟨rfl, rfl⟩, rfl⟩, by simp⟩
         | panic => exact absurd hmm (decodeVarint_ok _).1
 
+/-! ### `DecodeBytes` (length-delimited payload) -/
+
+theorem ult_maxLen (l : BitVec 64) : BitVec.ult 2147483647#64 l = decide (maxFieldLen < l.toNat) := by
+  unfold maxFieldLen; simp [BitVec.ult]
+
+theorem slt_len (p : Bytes) (x : BitVec 64) (hp : p.length < 2 ^ 63) (hx : x.toNat < 2 ^ 63) :
+    BitVec.slt (BitVec.ofNat 64 p.length) x = decide (p.length < x.toNat) := by
+  conv => lhs; rw [off_eq x]
+  exact slt_ofNat p.length x.toNat hp hx
+
+/-- **`(*Decoder).DecodeBytes` of the source refines `Dec.step .bytes`**: the length prefix is validated (malformed varint,
+    more than 2^31-1, beyond the remaining input: errors that leave the cursor), the returned slice is exactly the payload,
+    the cursor ends behind it.  (A Go slice holds fewer than 2^62 bytes.) -/
+theorem DecodeBytes_refines (fuel : Nat) (hf : 11 ≤ fuel) (p : Bytes) (off mode ks ke : BitVec 64) (fast : Bool)
+    (hp : p.length < 2 ^ 62) (hoff : off.toNat ≤ p.length) :
+    ∃ b e s, Decoder_DecodeBytes fuel p off mode ks ke = .ret (b, e) s ∧
+      s.d_p = p ∧ s.d_mode = mode ∧ s.d_keyStart = ks ∧ s.d_keyEnd = ke ∧
+      (match ((decOf p off ks ke fast).step .bytes) with
+       | (d', .ok (.bytes x), _) => e = .nil ∧ b = x ∧ s.d_offset.toNat = d'.off
+       | (_, .err, _) => e ≠ .nil ∧ s.d_offset = off
+       | _ => False) := by
+  have hp63 : p.length < 2 ^ 63 := by omega
+  unfold Decoder_DecodeBytes Decoder_DecodeBytes.body
+  simp only [Go.seq, Go.skip, eof_test p off hp63 hoff, Dec.step, withAlloc, Dec.bytesOp, Dec.lenPrefix, decOf, Dec.len, sliceFrom]
+  by_cases heof : p.length ≤ off.toNat
+  · simp [heof]
+    exact ⟨_, _, _, ⟨⟨rfl, rfl⟩, rfl⟩, by simp⟩
+  · obtain ⟨l, n, e, c, hd, hcase⟩ := call_varint fuel hf (p.drop off.toNat) (drop_len p _ hp63)
+    simp only [heof, decide_false, Bool.false_eq_true, if_false, hoff, if_true, hd, ge_iff_le]
+    rcases hcase with ⟨he, hm, hpos, hle⟩ | ⟨he, hm⟩
+    · subst he
+      have hn0 : ¬ n.toNat = 0 := by omega
+      have hlen : (p.drop off.toNat).length = p.length - off.toNat := by simp
+      have hsum : (off + n).toNat = off.toNat + n.toNat := add_toNat off n (by omega)
+      by_cases hbig : maxFieldLen < l.toNat
+      · simp [hm, hn0, n_zero_iff, ult_maxLen, hbig]
+        exact ⟨_, _, _, ⟨⟨rfl, rfl⟩, rfl⟩, by simp⟩
+      · have hl31 : l.toNat ≤ 2147483647 := by unfold maxFieldLen at hbig; omega
+        have hsum2 : (off + n + l).toNat = off.toNat + n.toNat + l.toNat := by
+          rw [add_toNat (off + n) l (by omega), hsum]
+        have hsum3 : (off + (n + l)).toNat = off.toNat + n.toNat + l.toNat := by
+          rw [← BitVec.add_assoc]; exact hsum2
+        have hslt := slt_len p (off + n + l) hp63 (by omega)
+        by_cases hover : p.length < off.toNat + n.toNat + l.toNat
+        · simp [hm, hn0, n_zero_iff, ult_maxLen, hbig, hslt, hsum2, hover]
+          exact ⟨_, _, _, ⟨⟨rfl, rfl⟩, rfl⟩, by simp⟩
+        · have hg : (off + n).toNat ≤ (off + n + l).toNat ∧ (off + n + l).toNat ≤ p.length := by
+            rw [hsum, hsum2]; omega
+          have hnot : ¬ off.toNat + n.toNat + l.toNat > p.length := by omega
+          have hmod : (off.toNat + n.toNat) % 18446744073709551616 = off.toNat + n.toNat := Nat.mod_eq_of_lt (by omega)
+          have hg2 : off.toNat + n.toNat + l.toNat ≤ p.length := by omega
+          simp [hm, hn0, n_zero_iff, ult_maxLen, hbig, hslt, hsum2, hover, hg, hnot, hmod, hg2]
+          refine ⟨_, _, _, ⟨⟨rfl, rfl⟩, rfl⟩, ?_⟩
+          simp [hsum, hsum2, hsum3, hmod]
+    · cases e with
+      | nil => exact absurd rfl he
+      | invalidVarint | unexpectedEOF | overflow | other w =>
+        cases hmm : decodeVarint (p.drop off.toNat) with
+        | ok r => exact absurd hmm (hm r)
+        | err => simp [hmm]; exact ⟨_, _, _, ⟨⟨rfl, rfl⟩, rfl⟩, by simp⟩
+        | panic => exact absurd hmm (decodeVarint_ok _).1
+
 end Csproto.Bridge.DecoderFuncs
